@@ -313,11 +313,15 @@ func trimStack(b []byte) string {
 func PanicSite(stack string) string {
 	for _, l := range strings.Split(stack, "\n") {
 		l = strings.TrimSpace(l)
-		if strings.HasPrefix(l, "/repo/") {
+		root := os.Getenv("VERIF_REPO")
+		if root == "" {
+			root = "/repo"
+		}
+		if strings.HasPrefix(l, root+"/") {
 			if i := strings.Index(l, " "); i > 0 {
 				l = l[:i]
 			}
-			return strings.TrimPrefix(l, "/repo/")
+			return strings.TrimPrefix(l, root+"/")
 		}
 	}
 	return "unknown"
